@@ -1,6 +1,6 @@
 #!/bin/sh
 # coqchk.sh — re-check every compiled property statement file (and everything it depends on) with Coq's
-# independent checker and print the axioms of the whole loaded context (about 1 minute, < 1 GB).
+# independent checker and print the axioms of the whole loaded context (about 4 minutes).
 cd "$(dirname "$0")/../coq" || exit 2
 MODS=$(ls theories/props/*.v | sed 's|theories/props/\(.*\)\.v|NV.props.\1|')
 exec timeout 3000 coqchk -silent -o -Q theories NV $MODS
